@@ -128,10 +128,10 @@ def guessDown (vals : List Val) : Bool := decide (vals.length < 2 * (vals.filter
 
 /-- `data_positive_down` as the code decides it: `attrs['positive'] == 'down'` when the
 attribute exists (so anything not spelled exactly `down` counts as up), else the guess -/
-def signDown (variable : Var) : Bool :=
-  match variable.positive with
+def signDown (cvar : Var) : Bool :=
+  match cvar.positive with
   | some s => s == "down"
-  | none => guessDown variable.data
+  | none => guessDown cvar.data
 
 /-- "Reverse the polarity": the coordinate and, if its `bounds` attribute names an
 existing variable, that variable are multiplied by −1 -/
@@ -158,14 +158,14 @@ def normStep (orig : Dataset) (pd dts : Option Bool) (new : Dataset) (name : Str
     Option (Dataset × List String) :=
   match orig.find name with
   | none => none                                   -- name_to_data_array: ValueError
-  | some variable =>
-    match variable.dims with
+  | some cvar =>
+    match cvar.dims with
     | [dim] =>
       let new1 := match pd with
         | some b => new.modify name (Var.setPositive (posName b))
         | none => new
-      let dataPD := signDown variable
-      let warn := if variable.positive.isNone then [name ++ ":" ++ posName dataPD] else []
+      let dataPD := signDown cvar
+      let warn := if cvar.positive.isNone then [name ++ ":" ++ posName dataPD] else []
       let doFlip := match pd with
         | some b => dataPD != b
         | none => false
@@ -232,7 +232,7 @@ def allSome {α} : List (Option α) → Option (List α)
   | none :: _ => none
   | some x :: xs => (allSome xs).map (x :: ·)
 
-/-- `frozenset(variable.dims).difference({depth_dimension}, non_spatial_dimensions)` -/
+/-- `frozenset(cvar.dims).difference({depth_dimension}, non_spatial_dimensions)` -/
 def spatialOf (nsdims : List String) (dd : String) (v : Var) : List String :=
   v.dims.filter fun x => x ≠ dd ∧ x ∉ nsdims
 
@@ -267,10 +267,15 @@ def iselDims (dd : String) (idims : List String) (dims : List String) : List Str
   dedup (dims.flatMap fun x => if x = dd then idims else [x])
 
 /-- One group of one depth dimension: the floor index array comes from the first variable
-of the group at non-spatial index 0; the group's variables (and every other variable the
-subset carries with that dimension, except one-dimensional coordinates of it) are indexed
-with it; the result is merged in front of the rest. -/
-def floorGroup (nsdims : List String) (dd : String) (ds : Dataset) (names : List String) : Option Dataset :=
+of the group at non-spatial index 0; the subset of the dataset that carries the group is
+indexed with it along `dd`; the result is merged in front of the rest.
+
+The subset (`utils.extract_vars(dataset, names)` minus the one-dimensional coordinates of
+`dd`) holds the group's variables and every xarray coordinate; with `kb = true`
+(`keep_bounds=True`, the code as written) it additionally holds every data variable named
+by the `bounds` attribute of a coordinate or of a group member. -/
+def floorGroup (kb : Bool) (nsdims : List String) (dd : String) (ds : Dataset) (names : List String) :
+    Option Dataset :=
   match names with
   | [] => some ds
   | n0 :: _ =>
@@ -283,55 +288,61 @@ def floorGroup (nsdims : List String) (dd : String) (ds : Dataset) (names : List
         let I : Env → Nat := fun env => floorIndex (column ds.sz ex dd (zeroNs nsdims env))
         let inSubset : Var → Bool := fun v =>
           if v.isCoord then !(v.dims == [dd])
-          else names.contains v.name || ds.vars.any (fun w => (w.isCoord || names.contains w.name) && w.bounds == some v.name)
+          else names.contains v.name ||
+            (kb && ds.vars.any (fun w => (w.isCoord || names.contains w.name) && w.bounds == some v.name))
         let idx : Var → Var := fun v =>
           if dd ∈ v.dims then iselVar ds.sz dd I (iselDims dd idims v.dims) v else v
         some { ds with vars := ((ds.vars.filter inSubset).map idx) ++ ds.vars.filter (fun v => !inSubset v) }
 
-def floorGroups (nsdims : List String) (dd : String) : Dataset → List (List String × List String) → Option Dataset
+def floorGroups (kb : Bool) (nsdims : List String) (dd : String) :
+    Dataset → List (List String × List String) → Option Dataset
   | ds, [] => some ds
   | ds, (_, names) :: rest =>
-    match floorGroup nsdims dd ds names with
+    match floorGroup kb nsdims dd ds names with
     | none => none
-    | some ds' => floorGroups nsdims dd ds' rest
+    | some ds' => floorGroups kb nsdims dd ds' rest
 
 /-- the body of `for depth_dimension in …` -/
-def floorDim (nsdims : List String) (ds : Dataset) (dd : String) : Option Dataset :=
-  floorGroups nsdims dd ds (groupsOf nsdims dd ds.vars)
+def floorDim (kb : Bool) (nsdims : List String) (ds : Dataset) (dd : String) : Option Dataset :=
+  floorGroups kb nsdims dd ds (groupsOf nsdims dd ds.vars)
 
-def floorDims (nsdims : List String) : Dataset → List String → Option Dataset
+def floorDims (kb : Bool) (nsdims : List String) : Dataset → List String → Option Dataset
   | ds, [] => some ds
   | ds, dd :: rest =>
-    match floorDim nsdims ds dd with
+    match floorDim kb nsdims ds dd with
     | none => none
-    | some ds' => floorDims nsdims ds' rest
+    | some ds' => floorDims kb nsdims ds' rest
 
-/-- `dataset.drop_dims(depth_dimensions, errors='ignore')` -/
+/-- `dataset.drop_dims(depth_dimensions, errors='ignore')`; a dimension no remaining
+variable uses disappears from `sizes` -/
 def Dataset.dropDims (ds : Dataset) (dds : List String) : Dataset :=
-  { sizes := ds.sizes.filter (fun p => p.1 ∉ dds),
-    vars := ds.vars.filter (fun v => v.dims.all (· ∉ dds)) }
+  let vars := ds.vars.filter (fun v => v.dims.all (· ∉ dds))
+  { sizes := ds.sizes.filter (fun p => vars.any (fun v => p.1 ∈ v.dims)),
+    vars := vars }
 
-/-- `ocean_floor(dataset, depth_coordinates, non_spatial_variables=ns)`, with the order
-in which the depth dimensions are visited (the code sorts them by `hash`, i.e. arbitrarily)
-given by `order`, which must be a rearrangement of the depth dimensions. -/
-def oceanFloorOrd (ds : Dataset) (coords ns order : List String) : Option Dataset :=
+/-- `[c.dims[0] for c in coordinates]` (`utils.dimensions_from_coords`) -/
+def dimsOf (ds : Dataset) (names : List String) : Option (List String) :=
+  allSome (names.map (dimOf ds))
+
+/-- `ocean_floor(dataset, depth_coordinates, non_spatial_variables=ns)`.
+The depth dimensions are visited in the order `order` (the code sorts them by `hash`,
+i.e. arbitrarily), which must list exactly the depth dimensions.
+`kb = true` is the code as written; `kb = false` is `keep_bounds=False` in `extract_vars`
+(no foreign bounds variable is dragged into a group's subset). -/
+def oceanFloorOrd (kb : Bool) (ds : Dataset) (coords ns order : List String) : Option Dataset :=
   match normalize ds coords (some true) (some false) with
   | none => none
   | some (nds, _) =>
-    match allSome (coords.map (dimOf nds)), allSome (ns.map (dimOf nds)) with
+    match dimsOf nds coords, dimsOf nds ns with
     | some ddims, some nsdims =>
       if order.all (· ∈ ddims) && ddims.all (· ∈ order) then
-        (floorDims nsdims nds order).map (·.dropDims ddims)
+        (floorDims kb nsdims nds order).map (·.dropDims ddims)
       else none
     | _, _ => none
 
-def oceanFloor (ds : Dataset) (coords ns : List String) : Option Dataset :=
-  match normalize ds coords (some true) (some false) with
-  | none => none
-  | some (nds, _) =>
-    match allSome (coords.map (dimOf nds)) with
-    | some ddims => oceanFloorOrd ds coords ns ddims
-    | none => none
+/-- `ocean_floor` visiting the depth dimensions in the order of the coordinates -/
+def oceanFloor (kb : Bool) (ds : Dataset) (coords ns : List String) : Option Dataset :=
+  oceanFloorOrd kb ds coords ns ((dimsOf ds coords).getD [])
 
 /-! ### discovery of depth coordinates -/
 
